@@ -40,7 +40,7 @@ def evaluate(progs, want_build=True, want_run=True, keep=False, vet=False):
     units = []
     try:
         R.build_tools()
-        R.write_module(root, progs)
+        R.write_module(root, progs, stale=want_build)
         t = time.time()
         rc, out, err = R.wire_gen(root)
         if re.search(r"(?m)^wire: generate failed$", err):
@@ -96,6 +96,12 @@ def evaluate(progs, want_build=True, want_run=True, keep=False, vet=False):
                 ur.impl = C.norm_err(C.norm_unused(ur.ix, "err " + " ".join(C.classify(ur.ix, m) for m in ur.wire_errors)))
             elif ur.pkg_status == "wrote" and gp in irs:
                 f = irs[gp]
+                if f.get("funcs") is None:
+                    # wire reports success but what it wrote is not a Go file
+                    ur.impl = "no-output"
+                    ur.ir_problems = ["wire reported `wrote` but the file it left is not valid Go: %s" % str(f.get("err") or f.get("Err") or "")[:200]]
+                    ur.irfile = f
+                    continue
                 fn = next((x for x in f["funcs"] if x["name"] == ur.u.inj["name"]), None)
                 if fn is None:
                     ur.impl = "missing-injector"
